@@ -170,12 +170,18 @@ def answerHistory (ws : List String) : String :=
     if !wf c.input then "bad-case not-wf" else
     let failed := dedupS (((clauses c.input c.orc c.out).filter (fun x => !x.2)).map (·.1))
     let model := run c.input c.orc
-    if !failed.isEmpty then
-      let tags := sortS (dedupS (failTags c.input c.orc c.out))
+    let tags := sortS (dedupS (failTags c.input c.orc c.out))
+    -- every failing instance carries the signature of a recorded finding (and no other clause fails)
+    let onlySigned := !tags.isEmpty && !tags.contains "other" &&
+      failed.all (fun f => ["expired_reported", "stale_forgotten", "forget_only_reported"].contains f)
+    if !failed.isEmpty && !(onlySigned && !sameAll model c.out) then
       "propfail " ++ ",".intercalate failed ++ " " ++ showArms (arms c) ++
-        (if tags.isEmpty then "" else " sig=" ++ ",".intercalate tags) ++
-        -- a recorded finding is only recognised when the model shows exactly the same behaviour
-        (if sameAll model c.out then "" else " modeldiff")
+        (if tags.isEmpty then "" else " sig=" ++ ",".intercalate tags)
+    else if !failed.isEmpty then
+      -- a signed failure is only a recorded finding when the model behaves exactly the same;
+      -- here it does not: report the disagreement (the tie is broken), not the recorded failure
+      "diff " ++ showArms (arms c) ++ " signed=" ++ ",".intercalate tags ++
+        " model=" ++ " ".intercalate ((model.map showObs).filter (· != ""))
     else if !sameAll model c.out then
       "diff " ++ showArms (arms c) ++ " model=" ++ " ".intercalate ((model.map showObs).filter (· != ""))
     else
